@@ -517,6 +517,14 @@ class WebSocketApp:
             ],
             reconnecting: bool = False,
         ) -> bool:
+            if not self.keep_running and not isinstance(
+                e, (KeyboardInterrupt, SystemExit)
+            ):
+                # close() has been called (possibly from another thread): an operation
+                # failing on the socket that is being torn down is not an error of the run
+                teardown()
+                return
+
             self.has_errored = True
             self._stop_ping_thread()
             if not reconnecting:
